@@ -1661,6 +1661,64 @@ class Unit:
         return "\n".join(self.out) + "\n"
 
 
+ITEM_START = {"pub", "proof", "spec", "fn", "impl", "broadcast", "open", "closed", "uninterp", "axiom", "use", "struct", "enum",
+              "trait", "type", "const", "mod", "#", "}", "exec", "static", "unsafe", "extern", "macro_rules"}
+
+
+def probe_lemmas(text, log):
+    """vacuity probes for lemmas (`proof fn` with a body): `assert(false);` as the FIRST statement of the body is provable only
+    if the lemma's `requires` are contradictory (or the axioms in scope are).  The body is the first depth-0 brace group after
+    the parameter list that is followed by the start of another item (clauses may contain `match x { .. }` groups)."""
+    toks = L.lex(text)
+    n = len(toks)
+    inserts = []
+    i = 0
+    while i < n:
+        t = toks[i]
+        if t.kind == L.IDENT and t.text == "proof":
+            j = L.skip_trivia(toks, i + 1, n)
+            if j < n and toks[j].text == "fn":
+                k = j + 1
+                while k < n and toks[k].text != "(":
+                    k += 1
+                k = L.match_close(toks, k) + 1
+                body = None
+                while k < n:
+                    x = toks[k]
+                    if x.kind == L.PUNCT and x.text in ("(", "["):
+                        k = L.match_close(toks, k) + 1
+                        continue
+                    if x.kind == L.PUNCT and x.text == ";":
+                        break           # declaration without body
+                    if x.kind == L.PUNCT and x.text == "{":
+                        c = L.match_close(toks, k)
+                        nx = L.skip_trivia(toks, c + 1, n)
+                        nxt = toks[nx].text if nx < n else "}"
+                        if nx < n and toks[nx].kind in (L.LCOMMENT, L.BCOMMENT):
+                            nxt = "}"
+                        if nxt in ITEM_START:
+                            body = k
+                            break
+                        k = c + 1
+                        continue
+                    k += 1
+                if body is not None:
+                    inserts.append(body)
+                    i = body + 1
+                    continue
+        i += 1
+    if not inserts:
+        return text
+    out = []
+    ins = set(inserts)
+    for idx, t in enumerate(toks):
+        out.append(t.text)
+        if idx in ins:
+            out.append(" assert(false); /*probe*/ ")
+    log["lemma_probes"] = len(inserts)
+    return "".join(out)
+
+
 def main():
     import argparse
     ap = argparse.ArgumentParser()
@@ -1676,6 +1734,8 @@ def main():
     except (Unsupported, L.LexError) as e:
         sys.stderr.write("extract: UNDECIDED unit=%s: %s\n" % (u.name, e))
         sys.exit(2)
+    if a.vacuity:
+        text = probe_lemmas(text, u.log)
     open(a.out, "w").write(text)
     log = dict(u.log)
     log["linemap"] = u.linemap
